@@ -32,6 +32,13 @@ type c09W struct {
 	Run     RunCfg   `json:"run"`
 	Ops     []ixOp   `json:"ops"`
 	Avoided []string `json:"avoided_shapes,omitempty"`
+	// Unobserved[i]: no query runs after step i. Queries are not read-only
+	// here (per-term counts are recounted and written back by the query that
+	// finds them invalidated), so observing after every step would hide every
+	// state in which a mutation meets an invalidated count.
+	Unobserved []bool `json:"unobserved,omitempty"`
+	// extra numeric windows for the range query (besides the fixed ones)
+	Windows [][2]float64 `json:"windows,omitempty"`
 }
 
 var ixFields = []string{"f", "g.h", "n"}
@@ -49,6 +56,14 @@ func init() {
 		Real:   []string{"kvindex (kvindex.go, keys.go, entries.go)"},
 		Stub:   []string{"storage engine (simkv)"},
 	})
+}
+
+// numeric windows of the range query: a fixed set plus the seeded ones of the
+// current workload (set by execC09; a worker runs one case at a time)
+var ixExtraWindows [][2]float64
+
+func ixWindows() [][2]float64 {
+	return append([][2]float64{{-3, 3}, {-1e10, 0.75}, {0.25, 1e10}, {-2, -0.5}, {1.5, 1e300}}, ixExtraWindows...)
 }
 
 func ixValue(r *Rng) interface{} {
@@ -93,7 +108,23 @@ func genC09(r *Rng, tier string) *c09W {
 			}
 		}
 	}
+	quiet := avoid && r.Chance(60)
+	bounds := []float64{-1e9, -2.5, -1, -0.25, 0, 0.25, 0.5, 1, 1.5, 2, 1e9, -3}
+	for i := 0; i < r.Intn(4); i++ {
+		a, b := bounds[r.Intn(len(bounds))], bounds[r.Intn(len(bounds))]
+		if a > b {
+			a, b = b, a
+		}
+		w.Windows = append(w.Windows, [2]float64{a, b})
+	}
 	live := map[string]bool{}
+	defer func() {
+		if quiet {
+			for range w.Ops {
+				w.Unobserved = append(w.Unobserved, r.Chance(60))
+			}
+		}
+	}()
 	for len(w.Ops) < n {
 		switch k := r.Intn(100); {
 		case k < 15:
@@ -130,6 +161,14 @@ func shrinkC09(w *c09W) []interface{} {
 	for i := len(w.Ops) - 1; i >= 0; i-- {
 		n := cp()
 		n.Ops = append(n.Ops[:i], n.Ops[i+1:]...)
+		if i < len(n.Unobserved) {
+			n.Unobserved = append(n.Unobserved[:i], n.Unobserved[i+1:]...)
+		}
+		out = append(out, n)
+	}
+	for i := len(w.Windows) - 1; i >= 0; i-- {
+		n := cp()
+		n.Windows = append(n.Windows[:i], n.Windows[i+1:]...)
 		out = append(out, n)
 	}
 	for i, op := range w.Ops {
@@ -227,7 +266,7 @@ func ixQueryReal(idx *kvindex.KVIndex) map[string]string {
 			nums = append(nums, fnum(n))
 		}
 		o["numbers-ascending("+f+")"] = strings.Join(nums, ",")
-		for _, wdw := range [][2]float64{{-3, 3}, {-1e10, 0.75}, {0.25, 1e10}, {-2, -0.5}, {1.5, 1e300}} {
+		for _, wdw := range ixWindows() {
 			var out []string
 			rc := idx.FieldTermNumberRange(f, wdw[0], wdw[1])
 			for {
@@ -298,6 +337,7 @@ func execC09(w *c09W, x *Exec) *Outcome {
 	if cfg.MaxSteps == 0 {
 		cfg.MaxSteps = 3000000
 	}
+	ixExtraWindows = w.Windows
 	res := x.Bubble(cfg, func(s *simrt.Sim) func() bool {
 		simrt.Go("client:index", func() {
 			disk := simkv.NewDisk()
@@ -336,6 +376,10 @@ func execC09(w *c09W, x *Exec) *Outcome {
 					o.Count("fault:clean_reopen", 1)
 				}
 				_ = docsBeforeField
+				if i < len(w.Unobserved) && w.Unobserved[i] && i != len(w.Ops)-1 {
+					o.Count("steps_not_observed", 1)
+					continue
+				}
 				got := ixQueryReal(idx)
 				want := ixQueryModel(m)
 				keys := make([]string, 0, len(want))
@@ -358,7 +402,7 @@ func execC09(w *c09W, x *Exec) *Outcome {
 				}
 				// numeric windows: strictly inside terms exact, outside terms absent, boundaries free
 				for _, f := range ixFields {
-					for _, wdw := range [][2]float64{{-3, 3}, {-1e10, 0.75}, {0.25, 1e10}, {-2, -0.5}, {1.5, 1e300}} {
+					for _, wdw := range ixWindows() {
 						key := fmt.Sprintf("number-range(%s,%s,%s)", f, fnum(wdw[0]), fnum(wdw[1]))
 						inside, boundary := m.RangeCounts(f, wdw[0], wdw[1])
 						gotm := map[string]string{}
